@@ -427,7 +427,7 @@ func c16RefreshAfterCrash(r *mc.Reporter, scratch string) {
 
 // file system operations for the incremental refresh search
 var c16OpNames = []string{"addA:d/a.ttf", "addB:d/a.ttf", "addA:d/sub/b.ttf", "addB:e/c.otf", "rm:d/a.ttf", "rm:d/sub/b.ttf", "touch:d/a.ttf", "older:d/a.ttf",
-	"replaceB:d/a.ttf", "replaceOlderB:d/a.ttf", "garbage:d/a.ttf", "mv:d/a.ttf>d/z.ttf", "mvdir:d/sub>d/sub2", "addtxt:d/readme.txt", "symlink:e/link.ttf>d/a.ttf", "symlinkdir:e/ldir>d/sub", "addC:d/sub/b.ttf", "pkg:d/m.ttf+d/n.ttf"}
+	"replaceB:d/a.ttf", "replaceOlderB:d/a.ttf", "garbage:d/a.ttf", "mv:d/a.ttf>d/z.ttf", "mvdir:d/sub>d/sub2", "addtxt:d/readme.txt", "symlink:e/link.ttf>d/a.ttf", "symlinkdir:e/ldir>d/sub", "addC:d/sub/b.ttf", "pkg:d/m.ttf+d/n.ttf", "addW0:d/w.woff", "addW1:d/w.woff"}
 
 func (f *c16fs) apply(op string) bool {
 	fonts := c16Fonts()
@@ -453,6 +453,12 @@ func (f *c16fs) apply(op string) bool {
 			return false
 		}
 		write(p, fonts[int(kind[3]-'A')], f.clock)
+	case "addW0", "addW1": // a damaged font: WOFF whose compressed name table is shorter than announced (c16ShortWOFF)
+		w := c16ShortWOFF(fonts[int(kind[4]-'0')])
+		if exists(p) || w == nil {
+			return false
+		}
+		write(p, w, f.clock)
 	case "pkg": // two fonts installed together (archive extraction, cp -p, a package manager): one shared time stamp
 		a, b, _ := strings.Cut(arg, "+")
 		pa, pb := filepath.Join(f.root, a), filepath.Join(f.root, b)
@@ -739,7 +745,7 @@ func init() {
 		Rule: "(a) round trip of the index of every corpus face (alone and all together) and of synthetic footprints (empty sets, 4352-page rune set, 255 scripts, 65535-byte strings, extreme and non-finite floats compared by bits, extreme mod times, 1000 files, empty footprint lists); " +
 			"(b) for a 1-file and a 3-file index: every prefix of the gzip stream, every byte x 255 values of the stream, every byte x 6 masks and every prefix of the uncompressed payload re-compressed: no panic, bounded allocation, a returned index is re-serialisable and total; a truncated file read as another index is a violation; " +
 			"(c) the refresh sequence (read cache, incremental scan, write cache) on every crash state of the cache file must equal a scan from scratch and leave a readable cache; " +
-			"(d) explicit-state search over file system histories (18 operations: add/remove/replace/touch/older mtime/garbage/rename file and directory/non-font file/symlink to file and directory/two fonts installed with one shared time stamp, on 2 roots with a nested directory) to the tier's depth with deduplication on (tree listing, persisted index): after every step incremental scan == scan from scratch. Non-trivial = fault not rejected / history of >= 1 operation",
+			"(d) explicit-state search over file system histories (20 operations: add/remove/replace/touch/older mtime/garbage/rename file and directory/non-font file/symlink to file and directory/two fonts installed with one shared time stamp/a WOFF file with a truncated compressed table, on 2 roots with a nested directory) to the tier's depth with deduplication on (tree listing, persisted index): after every step incremental scan == scan from scratch. Non-trivial = fault not rejected / history of >= 1 operation",
 		Assumptions: []string{"refreshSystemFontsIndex is emulated on explicit scratch directories with the same three calls (DefaultFontDirectories reads the host configuration)", "modification times are set by the harness (logical clock); a replacement with the very same mtime is outside the property",
 			"a corrupted (not truncated) cache that still parses to another index is counted, not judged: the statement only requires an error or a well-formed index"},
 		Shards: c16Shards, Run: c16Run, Replay: c16Replay,
